@@ -31,7 +31,7 @@ class Check(PropCheck):
         cases = []
         nr = 260 if self.tier == 'quick' else 5000
         for j in range(nr):
-            n = rng.randint(2, 14) if rng.random() < 0.7 else rng.randint(14, 40 if self.tier == 'quick' else 300)
+            n = rng.randint(2, 14) if rng.random() < 0.7 else rng.randint(14, 40 if self.tier == 'quick' else 150)
             mode = rng.choice(['exact', 'exact', 'exact', 'mod', 'none'])
             names = ['t%d' % i for i in range(n)] if rng.random() < 0.5 else ['Tip_%d' % i for i in range(n)]
             t = gen.rand_tree(rng, n, mode, p_multi=rng.choice([0, 0.3, 0.6]), p_unary=rng.choice([0, 0.15]), internal_names=rng.choice([0.3, 0.8]), names=names,
